@@ -224,6 +224,9 @@ def run_property(mod, pid, tier, seed, args, t0):
                 print(rep["traceback"])
         for o in rep.get("obligations", []):
             obligations.append(o)
+        if rep["status"] == "ok" and not rep.get("obligations"):
+            # vacuity guard: a contract that generated no obligation (no feasible path, contradictory assumptions) proves nothing
+            demoted.append(dict(job=job_name(j), status="vacuous", reason="no obligation was generated for this contract"))
     refuted = [o for o in obligations if o["status"] == "refuted"]
     undecided = [o for o in obligations if o["status"] == "undecided"]
     discharged = [o for o in obligations if o["status"] == "discharged"]
@@ -287,8 +290,16 @@ def run_property(mod, pid, tier, seed, args, t0):
                   open(path, "w"), indent=1, default=str)
         violations.append(f"VIOLATION property={pid} replay={path}")
 
+    for fd in findings:
+        if fd.get("status") == "known" and fd["id"] not in known_lines:
+            known_lines[fd["id"]] = (fd, [])
     for fid, (fd, fs) in sorted(known_lines.items()):
-        extra = f" ({len(fs)} cases, e.g. {fs[0].signature[:120]})" if fs else ""
+        if fs:
+            extra = f" ({len(fs)} cases, e.g. {fs[0].signature[:120]})"
+        elif any(o.get("known_finding") == fid for o in refuted):
+            extra = " (obligation refuted as recorded)"
+        else:
+            extra = f" (listed; witness: {fd.get('witness', '')[:140]}; no case of this tier's domain hit it)"
         print(f"KNOWN-FINDING: property={pid} {fd['what']}{extra}")
 
     # ---- evidence
